@@ -17,7 +17,10 @@ ROWS = [
     ("strcpyfldout_s", "src/extstr/strcpyfldout_s.c", "char", 11, "_strcpyfldout_s_chk(dest,dmax,src,n,destbos)"),
     ("wcsset_s", "src/extwchar/wcsset_s.c", "wchar_t", 4, "_wcsset_s_chk(dest,dmax,(wchar_t)value,destbos)"),
     ("wcsnset_s", "src/extwchar/wcsnset_s.c", "wchar_t", 5, "_wcsnset_s_chk(dest,dmax,(wchar_t)value,n,destbos)"),
+    ("wcslwr_s", "src/extwchar/wcslwr_s.c", "wchar_t", 7, "_wcslwr_s_chk(dest,dmax,destbos)"),
+    ("wcsupr_s", "src/extwchar/wcsupr_s.c", "wchar_t", 8, "_wcsupr_s_chk(dest,dmax,destbos)"),
 ]
+WIDE_CASE = ("wcslwr_s", "wcsupr_s")
 PROPS = ("C01", "C02", "C03", "C04", "C05", "C06", "C08")
 
 
@@ -49,10 +52,11 @@ def jobs(prop, tier, only_fn=None):
         for variant in variants:
             for dobj, sobj, extra in geos:
                 tag = "".join(extra).replace("-DFIX_ORDER=", ".o").replace("-DFIX_DMAX=", ".D")
-                out.append(Job("%s.%s.%s.d%d%s" % (name, prop, variant, dobj, tag), prop, "h_xform.c", [f] + SUP, variant=variant,
+                out.append(Job("%s.%s.%s.d%d%s" % (name, prop, variant, dobj, tag), prop, "h_xform.c", [f] + SUP + (["src/extwchar/towctrans.c"] if name in WIDE_CASE else []), variant=variant,
                                defines=["-DXK=%d" % xk, "-DT=%s" % T, "-DDOBJ=%d" % dobj, "-DSOBJ=%d" % sobj, "-DCALL=%s" % call,
                                         "-DRMAX=%s" % ("RSIZE_MAX_WSTR" if wide else "RSIZE_MAX_STR")] + extra +
-                               (["-DVH_MEMSET_WORD"] if wide else []),
+                               (["-DVH_MEMSET_WORD"] if wide else []) + (["-DASCII_ONLY", "-DZERO_OK"] if name in WIDE_CASE else []),
+                               models=("libc_models.c", "wide_models.c") if name in WIDE_CASE else ("libc_models.c",),
                                unwind_default=max(dobj, sobj) + 3, memchecks=prop in ("C01", "C02"), fn=name,
                                bounds={"dest object": dobj, "src object": sobj if xk >= 9 else None, "dmax/slen/n/value": "symbolic (truthful)",
                                        "contents": "symbolic"},
